@@ -81,6 +81,11 @@ type Mem struct {
 	Count  uint64 // accesses since last ResetCount
 	Budget uint64 // 0 = unlimited; exceeding panics with ErrBudget
 	Hook   func(m *Mem, a Access)
+
+	// ROFrom != 0: addresses >= ROFrom do not keep writes (ROM, unpopulated
+	// space, the area behind a short DumbMemory); the write is still an access
+	// (logged, counted).  Place bypasses it.
+	ROFrom uint32
 }
 
 // BudgetExceeded is the panic value of the logical watchdog.
@@ -133,9 +138,11 @@ func (m *Mem) Get(addr uint16) uint8 {
 }
 
 func (m *Mem) Set(addr uint16, v uint8) {
-	m.undoA = append(m.undoA, addr)
-	m.undoV = append(m.undoV, m.Data[addr])
-	m.Data[addr] = v
+	if m.ROFrom == 0 || uint32(addr) < m.ROFrom {
+		m.undoA = append(m.undoA, addr)
+		m.undoV = append(m.undoV, m.Data[addr])
+		m.Data[addr] = v
+	}
 	if m.Logging || m.Hook != nil || m.Budget != 0 {
 		m.tick(Access{'W', addr, v})
 	} else {
@@ -180,9 +187,15 @@ type IO struct {
 	N    uint64
 	Log  []Access
 	Hook func(io *IO, a Access)
+	// Null models "no device attached" for specifications: reads give 0, writes
+	// vanish, nothing is logged.
+	Null bool
 }
 
 func (io *IO) In(port uint8) uint8 {
+	if io.Null {
+		return 0
+	}
 	v := uint8(Hash(io.Seed, uint64(port), io.N) >> 24)
 	io.N++
 	a := Access{'I', uint16(port), v}
@@ -194,6 +207,9 @@ func (io *IO) In(port uint8) uint8 {
 }
 
 func (io *IO) Out(port uint8, v uint8) {
+	if io.Null {
+		return
+	}
 	io.N++
 	a := Access{'O', uint16(port), v}
 	io.Log = append(io.Log, a)
